@@ -1,4 +1,4 @@
 #!/bin/sh
-# replay of the C08 defect fixed by 0bb5e2f: prints "<-- WRONG" where the reported sin(beta-alpha) differs from the input
+# replay of the C08 defect fixed by 710116a: prints "<-- WRONG" where the reported sin(beta-alpha) differs from the input
 d=$(mktemp -d); trap 'rm -rf $d' EXIT
 g++ -std=c++14 -O1 -I /repo/include -I /repo/src -I /usr/include/eigen3 "$(dirname "$0")/demo.cpp" /repo/_build/lib/libgm2calc.a -o $d/demo && $d/demo
